@@ -115,10 +115,19 @@ func RecipSig(rs []Recip) string {
 // Recipients builds the real recipients of a model list.
 func Recipients(w *world.World, rs []Recip) []age.Recipient {
 	var out []age.Recipient
+	// a key listed twice: the same recipient value twice when the list has an even number of entries, two values built
+	// from the same key otherwise (callers do both)
+	same := map[string]age.Recipient{}
 	for _, r := range rs {
 		switch r.K {
 		case "K":
-			out = append(out, w.Recipient(r.Key))
+			if rc, ok := same[r.Key]; ok && len(rs)%2 == 0 {
+				out = append(out, rc)
+				continue
+			}
+			rc := w.Recipient(r.Key)
+			same[r.Key] = rc
+			out = append(out, rc)
 		case "G":
 			out = append(out, world.GreaseRecipient{})
 		case "L":
